@@ -807,7 +807,8 @@ def sharing_programs():
 class C06:
     prop = "C06"
     lean_module = "Ogorek.Props.C06Py2"
-    theorems = ["Ogorek.C06_py2_str_agree", "Ogorek.C06_py2_str_pvm", "Ogorek.pruns_put_any", "Ogorek.C06_pickler_agree", "Ogorek.C06_pickler_agree_bin", "Ogorek.C06_pickler_agree_dec", "Ogorek.pyOKp_of_bf", "Ogorek.pkOK_of_bf",
+    theorems = ["Ogorek.C06_py2_str_agree", "Ogorek.C06_py2_str_pvm", "Ogorek.C06_py2_unicode_agree", "Ogorek.C06_py2_unicode_pvm",
+                "Ogorek.py2_leaf_pvm_core", "Ogorek.pruns_put_any", "Ogorek.C06_pickler_agree", "Ogorek.C06_pickler_agree_bin", "Ogorek.C06_pickler_agree_dec", "Ogorek.pyOKp_of_bf", "Ogorek.pkOK_of_bf",
                 "Ogorek.pyFloatTextOK_of_b", "Ogorek.pyOKp_of_b", "Ogorek.C06_pickler_pvm", "Ogorek.C02_pickler_shared", "Ogorek.psk_val", "Ogorek.sk_val",
                 "Ogorek.pruns_listGroups", "Ogorek.pruns_dictGroups", "Ogorek.PMemoInv.put", "Ogorek.pruns_get", "Ogorek.pyAssignAll_repG",
                 "Ogorek.C01_C03_agree", "Ogorek.C02_memo_keys", "Ogorek.C06_dup_same", "Ogorek.C06_get_same", "Ogorek.C06_dict_shared",
@@ -837,7 +838,8 @@ class C06:
                   "(C06_pickler_agree_dec: pkOKb, pyOKb and - at protocol 0 - pyFloatsOKb, which runs the model's formatter and parser on "
                   "each float of the object), and the check computes them for every real pickle it takes as a program, so those cases are "
                   "instances of the theorem at every protocol 0-5. And on what PYTHON 2 writes for a str object (STRING / SHORT_BINSTRING / BINSTRING, "
-                  "PROTO, any memo PUT): C06_py2_str_agree - both unpicklers accept the bytes, consume all of them and return that byte string "
+                  "PROTO, any memo PUT) and for a unicode object (UNICODE in Python 2's raw-unicode-escape / BINUNICODE): C06_py2_str_agree, "
+                  "C06_py2_unicode_agree - both unpicklers accept the bytes, consume all of them and return that byte string / text "
                   "(the Python machine, like the oracle, keeps a Python-2 str as a value of its own). PARTIAL: no simulation theorem between the two machines on "
                   "arbitrary programs (K1 and K6 make them differ where lists / NaN objects are shared); there the statement is decided "
                   "per run against the real CPython unpickler on generated and exhaustively enumerated programs (K1 runs being exactly "
